@@ -21,7 +21,10 @@ def statement(header, lemma):
     if r.returncode != 0:
         raise SystemExit('cannot Check %s:\n%s' % (lemma, r.stdout[-800:]))
     out = r.stdout.strip()
-    m = re.match(r'(@?[\w.\']+)\s*\n?\s*:\s', out)
+    # warnings (e.g. an overridden notation in an imported file) may precede the answer: take the answer line for this lemma
+    short = lemma.split('.')[-1]
+    ms = [x for x in re.finditer(r'^(@?[\w.\']+)\s*\n?\s*:\s', out, re.M) if x.group(1).lstrip('@').split('.')[-1] == short]
+    m = ms[-1] if ms else None
     if not m:
         raise SystemExit('cannot find the statement of %s in:\n%s' % (lemma, out[-600:]))
     body = out[m.end():]
